@@ -115,14 +115,43 @@ def check_property(pid, tier, only_group=None, only_unit=None, verbose=False):
             r['unit'] = u
             return r
         except Undecided as e:
-            return dict(group=spec['name'], name=u['name'], undecided=str(e), unit=u)
+            res = dict(group=spec['name'], name=u['name'], undecided=str(e), unit=u)
+            # the unit could not even be built (e.g. a spliced loop contract names a local that a refactoring removed):
+            # the proof is broken, not the property refuted.  Look for a P counterexample on the text WITHOUT loop
+            # contracts, loops unwound a few times (under-approximation: any counterexample found is real).
+            if ('goto-cc failed' in str(e) or 'goto-instrument failed' in str(e)) and u.get('enforce') and not u.get('_second'):
+                try:
+                    with nolc_lock:
+                        if spec['name'] not in nolc:
+                            text2, _ = runner.generate(spec, REPO, no_loop_contracts=True)
+                            cf2 = os.path.join(outdir, spec['name'] + '.nolc.c')
+                            with open(cf2, 'w') as f:
+                                f.write(text2)
+                            nolc[spec['name']] = (cf2, text2.split('\n'))
+                    cf2, lines2 = nolc[spec['name']]
+                    u2 = dict(u)
+                    u2['name'] = u['name'] + '.nolc'
+                    u2['_no_loop_contracts'] = True
+                    r2 = runner.run_unit(spec, u2, cf2, lines2, outdir, tier)
+                    p2 = [o for o in r2['obligations'] if o['cls'] == 'P' and o['status'] == 'FAILURE']
+                    if p2:
+                        r2['group'] = spec['name']
+                        r2['unit'] = u2
+                        res['fallback'] = (r2, p2, cf2, lines2)
+                except (Undecided, ExtractionError):
+                    pass
+            return res
 
+    import threading
+    nolc = {}
+    nolc_lock = threading.Lock()
     nworkers = int(os.environ.get('VF_JOBS', '16'))
     with cf.ThreadPoolExecutor(max_workers=nworkers) as ex:
         for r in ex.map(work, jobs):
             results.append(r)
 
     violations = []
+    prepared_nolc = {}
     known_hits = []
     n_ob = n_ok = 0
     n_canary = n_canary_ok = 0
@@ -132,6 +161,14 @@ def check_property(pid, tier, only_group=None, only_unit=None, verbose=False):
     solver_time = 0.0
     for r in results:
         if 'undecided' in r:
+            if r.get('fallback'):
+                r2, p2, cf2, lines2 = r['fallback']
+                spec2 = [s for s in specs if s['name'] == r['group']][0]
+                p2 = [o for o in p2 if not known_match(known, pid, r['group'], r['name'], o)]
+                if p2:
+                    prepared_nolc[r2['name']] = (cf2, lines2)
+                    violations.append((spec2, r2, p2))
+                    continue
             undecided.append(r['undecided'])
             continue
         solver_time += r['solver_secs']
@@ -229,6 +266,8 @@ def check_property(pid, tier, only_group=None, only_unit=None, verbose=False):
     replay_paths = []
     for spec, r, obs in violations:
         cfile, lines, spans, outdir = prepared[spec['name']]
+        if r['name'] in prepared_nolc:
+            cfile, lines = prepared_nolc[r['name']]
         path, reproduced = replay.make_replay(pid, spec, r, obs, cfile, lines, spans, outdir, tier)
         replay_paths.append(path)
         print('VIOLATION property=%s replay=%s%s' % (pid, path, '' if reproduced else ' no-failing-input-found'))
